@@ -44,6 +44,7 @@ type C18Scenario struct {
 	Seeks           []SeekOp   `json:"seeks"`
 	SampleSeed      uint64     `json:"sample_seed"`
 	MaxBytes        int        `json:"max_bytes"`
+	Wide            bool       `json:"wide,omitempty"` // more than 256 row groups: ordinals beyond one byte
 	Only            *C18Case   `json:"only,omitempty"`
 	Failed          *C18Case   `json:"failed,omitempty"`
 }
@@ -118,6 +119,32 @@ func (C18) Gen(t *tape.Tape, tier string) any {
 		}
 	}
 	sc.SampleSeed = t.Seed()
+	if t.Chance(1, 8) {
+		// module ordinals are 16-bit: a file with more than 256 row groups makes
+		// modules whose ordinals differ by 256 available for swapping
+		sc.Wide = true
+		sc.Plan.Shape = "flat"
+		sc.Plan.NRows = 258 + t.Draw(40)
+		sc.Plan.Ops = []WOp{{Op: "write", N: sc.Plan.NRows}}
+		sc.Plan.W = gen.WOpts{WriteBufferSize: -1, MaxRowsPerGroup: 1, PageVersion: 1 + t.Draw(2)}
+		if t.Bool() {
+			// one row group whose chunks have more than 256 pages instead
+			// (the writer looks at the page size limit once per Write call)
+			sc.Plan.Ops = nil
+			for i := 0; i < sc.Plan.NRows; i++ {
+				sc.Plan.Ops = append(sc.Plan.Ops, WOp{Op: "write", N: 2})
+			}
+			sc.Plan.NRows = 2 * sc.Plan.NRows
+			sc.Plan.W.MaxRowsPerGroup = 0
+			sc.Plan.W.PageBufferSize = 16
+		}
+		sc.Plan.WriterKind = gen.WGeneric
+		sc.ColumnKeys = nil
+		if t.Bool() {
+			sc.ColumnKeys = []string{"id", "s"}
+		}
+		sc.Seeks = nil
+	}
 	if tier == "thorough" {
 		sc.MaxBytes = 600
 		if t.Chance(1, 4) {
@@ -180,8 +207,10 @@ type c18run struct {
 	sigs   []uint64
 	base   string
 	footer int64 // offset where the footer section starts
-	mods   [][2]int64
-	mods2  [][2]int64
+	// offset where the authenticated part of the footer section starts
+	footerModule int64
+	mods         [][2]int64
+	mods2        [][2]int64
 }
 
 func (r *c18run) write(fileID []byte, seedOff uint64) ([]byte, *core.Violation) {
@@ -406,6 +435,19 @@ func (C18) Run(s any, c *core.Ctx) core.Outcome {
 	// footer section start
 	flen := int64(binary.LittleEndian.Uint32(r.good[len(r.good)-8:]))
 	r.footer = int64(len(r.good)) - 8 - flen
+	// with an encrypted footer the section starts with the FileCryptoMetaData
+	// structure in clear (not a module: nothing authenticates its framing); the
+	// footer module is the envelope whose length prefix reaches the end
+	r.footerModule = r.footer
+	if sc.EncryptedFooter {
+		end := int64(len(r.good)) - 8
+		for p := r.footer; p+4 <= end; p++ {
+			if int64(binary.LittleEndian.Uint32(r.good[p:]))+p+4 == end {
+				r.footerModule = p
+				break
+			}
+		}
+	}
 	var ok bool
 	if r.mods, ok = walkModules(r.good, r.footer); !ok {
 		c.Probe("module-walk-failed")
@@ -436,6 +478,9 @@ func (r *c18run) tamper() *core.Violation {
 	}
 	rng := tape.NewRng(sc.SampleSeed)
 	n := int64(len(r.good))
+	if sc.Wide {
+		return r.tamperWide(rng)
+	}
 	// bit flips
 	var offs []int64
 	if sc.MaxBytes == 0 || int64(sc.MaxBytes) >= n {
@@ -550,11 +595,16 @@ func (r *c18run) run1(k C18Case) (v *core.Violation) {
 		img[k.Off] ^= 1 << uint(k.Bit)
 		// inside the module area (envelopes) and inside the footer section an error is mandatory
 		mustFail = k.Off >= 4 && k.Off < int64(len(img))-8 && (r.mods != nil || k.Off >= r.footer)
+		if k.Off >= r.footer && k.Off < r.footerModule {
+			// plaintext FileCryptoMetaData: error, or exactly the original rows
+			mustFail = false
+			r.c.Probe("flips-in-plaintext-crypto-metadata")
+		}
 	case "truncate-module":
 		m := r.mods[k.A]
 		img = append(img[:m[0]+m[1]-1], img[m[0]+m[1]:]...)
 		mustFail = true
-	case "swap":
+	case "swap", "swap-ordinals-256-apart":
 		a, b := r.mods[k.A], r.mods[k.B]
 		tmp := append([]byte(nil), img[a[0]:a[0]+a[1]]...)
 		copy(img[a[0]:a[0]+a[1]], img[b[0]:b[0]+b[1]])
@@ -598,6 +648,100 @@ func (r *c18run) run1(k C18Case) (v *core.Violation) {
 		}
 		if !res.Complete {
 			return core.Violate("C18/"+k.Kind+"/clean-end-missing-rows/"+mode, "rows delivered %d of %d without error", res.Delivered, r.data.Len())
+		}
+	}
+	return nil
+}
+
+// tamperWide swaps modules holding the same position in row groups whose
+// ordinals differ by 256, plus a few flips: the full read of a file with
+// hundreds of row groups is too slow for the general enumeration.
+func (r *c18run) tamperWide(rng *tape.Rng) *core.Violation {
+	if r.mods == nil {
+		r.c.Probe("wide-module-walk-failed")
+		return nil
+	}
+	f, err := parquet.OpenFile(bytes.NewReader(r.good), int64(len(r.good)), parquet.WithDecryption(r.keys))
+	if err != nil {
+		return core.Violate("C18/roundtrip/error-with-right-keys", "wide: %v", err)
+	}
+	index := map[int64]int{}
+	for i, m := range r.mods {
+		index[m[0]] = i
+	}
+	var starts []int
+	for _, rg := range f.Metadata().RowGroups {
+		first := int64(-1)
+		for _, col := range rg.Columns {
+			off := col.MetaData.DataPageOffset
+			if d := col.MetaData.DictionaryPageOffset; d != 0 && d < off {
+				off = d
+			}
+			if off > 0 && (first < 0 || off < first) {
+				first = off
+			}
+		}
+		mi, ok := index[first]
+		if !ok {
+			r.c.Probe("wide-row-group-start-not-a-module")
+			return nil
+		}
+		starts = append(starts, mi)
+	}
+	cases := 0
+	if len(starts) == 1 {
+		// pages 256 apart within one column chunk: header and body modules
+		for _, cc := range f.RowGroups()[0].ColumnChunks() {
+			oi, err := cc.OffsetIndex()
+			if err != nil || oi == nil || oi.NumPages() <= 256 {
+				continue
+			}
+			r.c.Probe("wide-chunks-with-more-than-256-pages")
+			for k := 0; k < 3; k++ {
+				p := rng.Intn(oi.NumPages() - 256)
+				i, ok1 := index[oi.Offset(p)]
+				j, ok2 := index[oi.Offset(p+256)]
+				if !ok1 || !ok2 {
+					r.c.Probe("wide-page-start-not-a-module")
+					continue
+				}
+				for d := 0; d < 2; d++ {
+					a, b := r.mods[i+d], r.mods[j+d]
+					if a[1] != b[1] {
+						continue
+					}
+					cases++
+					r.c.Probe("wide-swaps-256-apart")
+					if v := r.run1(C18Case{Kind: "swap-ordinals-256-apart", A: i + d, B: j + d}); v != nil {
+						return v
+					}
+				}
+			}
+		}
+	}
+	if len(starts) > 256 {
+		r.c.Probe("wide-files-with-more-than-256-row-groups")
+	}
+	for g := 0; g+256 < len(starts) && cases < 24; g++ {
+		per := starts[g+1] - starts[g]
+		for _, d := range []int{rng.Intn(per), rng.Intn(per)} {
+			i, j := starts[g]+d, starts[g+256]+d
+			if j >= len(r.mods) || r.mods[i][1] != r.mods[j][1] {
+				continue
+			}
+			if bytes.Equal(r.good[r.mods[i][0]:r.mods[i][0]+r.mods[i][1]], r.good[r.mods[j][0]:r.mods[j][0]+r.mods[j][1]]) {
+				continue
+			}
+			cases++
+			r.c.Probe("wide-swaps-256-apart")
+			if v := r.run1(C18Case{Kind: "swap-ordinals-256-apart", A: i, B: j}); v != nil {
+				return v
+			}
+		}
+	}
+	for k := 0; k < 6; k++ {
+		if v := r.run1(C18Case{Kind: "flip", Off: int64(rng.Uint64() % uint64(len(r.good))), Bit: rng.Intn(8)}); v != nil {
+			return v
 		}
 	}
 	return nil
